@@ -48,6 +48,30 @@ def dense_to_index(a, common):
     return iindex(entries, common, tuple(int(s) for s in a.shape))
 
 
+def stride_entries(idx, rng, prob=0.5):
+    """Replace some row-id arrays by non-contiguous views holding the same values (an index accepts
+    any uint32 array)."""
+    for k, v in list(dict.items(idx)):
+        if len(v) and rng.random() < prob:
+            buf = numpy.full(2 * len(v) + 3, 0xCDCDCDCD, dtype=U32)
+            buf[1:1 + 2 * len(v):2] = v
+            dict.__setitem__(idx, k, buf[1:1 + 2 * len(v):2])
+    return idx
+
+
+def layout_variant(rng, a):
+    """The same array in another memory layout (Fortran order, or a strided view)."""
+    a = numpy.asarray(a)
+    which = wpick(rng, [("C", 3), ("F", 2), ("strided", 1)])
+    if which == "F" and a.ndim >= 2:
+        return numpy.asfortranarray(a), "F"
+    if which == "strided" and a.ndim >= 1 and a.shape[0]:
+        big = numpy.zeros((2 * a.shape[0],) + a.shape[1:], dtype=a.dtype)
+        big[::2] = a
+        return big[::2], "strided"
+    return a.copy(), "C"
+
+
 def index_to_dense(idx, dtype=None):
     """Harness-side densification (does not use iindex.to_array)."""
     vals = [c[0] for c in idx] + [idx.common]
